@@ -20,12 +20,12 @@ def tshift(case):
     return 0 if not s else (HUGE if s == 'p4400' else -HUGE)
 
 
-def shifted(op, s):
-    """op with every time field moved by s."""
-    if not s:
+def shifted(op, s, conv=None):
+    """op with every time field moved by s (and, if conv is given, converted - e.g. to numpy.int64)."""
+    if not s and conv is None:
         return op
     k = op[0]
-    mv = lambda x: None if x is None else x + s
+    mv = lambda x: None if x is None else (x + s if conv is None else conv(x + s))
     if k == 'add':
         return [k, op[1], op[2], mv(op[3]), mv(op[4])]
     if k == 'add_from':
@@ -121,17 +121,19 @@ def _variant(op, n):
     return sum(ord(c) for c in r) % n
 
 
-def call_real(G, nodes, op, shift=0):
+def call_real(G, nodes, op, shift=0, tconv=None):
     """Perform op on the real graph; returns None or the exception instance.  The documented call
     forms are rotated (positional / keyword t and e; ebunch as list of tuples, tuple of lists,
     generator, 3-tuples with a data dict; node sequences as list, tuple or iterator)."""
     import dynetx as dn
     k = op[0]
     var = _variant(op, 12)
-    op = shifted(op, shift)
+    op = shifted(op, shift, tconv)
     try:
         if k == 'add':
             u, v, t, e = nodes[op[1]], nodes[op[2]], op[3], op[4]
+            if op[1] == op[2] and var % 2:
+                v = fresh(u)        # a self-loop whose endpoints are equal but not the same object (where Python allows)
             if e is None:
                 if var % 3 == 0:
                     G.add_interaction(u, v, t)
@@ -218,6 +220,13 @@ class Driver:
         self.G = new_graph(case['cls'], self.removal)
         self.M = Ref(self.directed, self.removal)
         self.shift = tshift(case)
+        self.tconv = None
+        if case.get('tkind') == 'np64' and not self.shift:
+            # timestamps handed over as numpy.int64 (what numpy arrays and timestamptype=numpy.int64 produce); the
+            # model keeps Python ints - they are equal and hash alike
+            import numpy as np
+            big = 2 ** 62
+            self.tconv = lambda x: np.int64(x) if -big < x < big else x
         self.desync = False      # accumulative mode: prediction and library disagreed
         self.classes = set()
 
@@ -277,7 +286,7 @@ class Driver:
             u, v, t, e = elements(op, nodes, self.shift)[0]
             expected = predicted(self.M, u, v, t, e)
             self.classify(u, v, t, e, expected)
-            ex = call_real(self.G, self.anodes, op, self.shift)
+            ex = call_real(self.G, self.anodes, op, self.shift, self.tconv)
             actual = exc_kind(ex)
             applied, news = 0, []
             if actual in ('ok', 'ValueError') and self.M.expected_outcome(u, v, t, e) == 'either':
@@ -288,7 +297,7 @@ class Driver:
                 applied = 1
         else:
             expected, applied, news = apply_model(self.M, nodes, op, self.classify, self.shift)
-            ex = call_real(self.G, self.anodes, op, self.shift)
+            ex = call_real(self.G, self.anodes, op, self.shift, self.tconv)
             actual = exc_kind(ex)
             if not self.removal and op[0] in ADD_OPS and actual != expected:
                 self.desync = True
